@@ -219,6 +219,7 @@ func runC06(p *Prog, r *Report) {
 	r.Min("C06.R3", 6)
 	r.Min("C06.R4", 6)
 	r.Min("C06.R5", 8)
+	r.Min("C06.R6", 4)
 	lf, err := p.LayerFacts()
 	if err != nil {
 		r.Undecided("C06.R1", "gopacket/layers", "-", "gopacket layer tables can be loaded from the source the build uses", err.Error())
@@ -282,6 +283,18 @@ func runC06(p *Prog, r *Report) {
 		if o.Rule == "C20.R1" || o.Rule == "C20.R2" {
 			o2 := *o
 			o2.Rule = "C06.R5"
+			r.Obs = append(r.Obs, &o2)
+		}
+	}
+	// R6: handing a record to the result queue never panics: the channel the processors' Put sends on is
+	// closed only after every send (C12.R1 close discipline of the result queue re-evaluated) - a send on a
+	// closed channel inside ProcessPacketData would kill the process on a perfectly valid frame
+	sub12 := NewReport("C06", "quick")
+	runC12(p, sub12)
+	for _, o := range sub12.Obs {
+		if o.Rule == "C12.R1" && strings.HasPrefix(o.Construct, "pkg/scan.NewResultChan") {
+			o2 := *o
+			o2.Rule = "C06.R6"
 			r.Obs = append(r.Obs, &o2)
 		}
 	}
